@@ -99,6 +99,13 @@ class Extractor:
             return self._kinds(self.parser.class_attrs[node.attr])
         if isinstance(node, ast.BinOp) and isinstance(node.op, ast.Add):
             return self._kinds(node.left) + self._kinds(node.right)
+        # a local of the production that is bound once to a constant list of kinds
+        if isinstance(node, ast.Name):
+            defs = [st.value for st in ast.walk(self.fn.node) if isinstance(st, ast.Assign) and len(st.targets) == 1
+                    and isinstance(st.targets[0], ast.Name) and st.targets[0].id == node.id]
+            stores = [x for x in ast.walk(self.fn.node) if isinstance(x, ast.Name) and x.id == node.id and isinstance(x.ctx, ast.Store)]
+            if len(defs) == 1 and len(stores) == 1 and isinstance(defs[0], (ast.List, ast.Tuple, ast.Constant)):
+                return self._kinds(defs[0])
         self.err(node, "token-kind argument")
 
     # ---- values -----------------------------------------------------------------------
